@@ -1,10 +1,10 @@
 (** C03 — compiled execution equals the dataflow meaning of the user's graph.
     Models: Graph/Net.v (compilers, loaders, executor), Graph/Denote.v (user-level meaning used
     as the decidable spec on implementation outputs).  Proofs: Proofs/C03_Exec.v, C03_Compile.v,
-    C03_Ancestors.v, C03_EndToEnd.v, C03_Twins.v. *)
+    C03_Ancestors.v, C03_EndToEnd.v, C03_Twins.v, C03_ModelOk.v. *)
 From Coq Require Import List String ZArith Arith Bool.
 From Elfi Require Import Graph.Net Graph.Denote Proofs.C03_Exec Proofs.C03_Compile Proofs.C03_Ancestors Proofs.C03_EndToEnd
-     Proofs.C03_Twins.
+     Proofs.C03_Twins Proofs.C03_ModelOk.
 Import ListNotations.
 
 (** The dataflow meaning [Den] of a loaded net is a function of the net. *)
@@ -200,4 +200,65 @@ Proof.
   refine (C03_generate_is_dataflow ex_src _ [] _ _ Hwf _ _ H _ _ (or_introl eq_refl) (or_introl eq_refl)).
   - constructor.
   - intros k [].
+Qed.
+
+(** The ancestor computation is exact: membership is "reaches a root". *)
+Theorem C03_ancestors_exact :
+  forall es roots x, In x (ancestors_incl es roots) <-> reaches_root es roots x.
+Proof. exact ancestors_incl_iff. Qed.
+Print Assumptions C03_ancestors_exact.
+
+(** The call log of an execution on a fresh context, exactly: the nodes that carry an operation and
+    reach a needed output through nodes whose value is not present. *)
+Theorem C03_execute_log_exact :
+  forall g out log c', execute g empty_cache = Ok (out, log, c') ->
+    forall n, In n log <-> has_op g n = true /\ reaches_root (dep_of g) (needed_of g) n.
+Proof. exact execute_log_iff. Qed.
+Print Assumptions C03_execute_log_exact.
+
+(** The model runs exactly the specification's [needed_ops], each once: for EVERY well-formed source
+    net, any supplied with_values and any requested outputs that are nodes or twins of observable /
+    observed-using nodes ([outputs_wf]), the call log of [generate] and [needed_ops] are duplicate-free
+    lists with the same elements. *)
+Theorem C03_model_log_exact :
+  forall src outs W out log,
+    wfsrc src -> NoDup (map fst W) -> (forall k, In k (map fst W) -> ~ In k inames) ->
+    outputs_wf src outs ->
+    generate src outs W = Ok (out, log) ->
+    NoDup log /\ NoDup (needed_ops src W outs) /\ (forall n, In n log <-> In n (needed_ops src W outs)).
+Proof. exact model_log_exact. Qed.
+Print Assumptions C03_model_log_exact.
+
+(** The model's own output passes the decidable check [Denote.ok] (all four clauses: observed data
+    does not depend on a stochastic node; every value is [den_name]; the names are the sorted distinct
+    outputs; the operations run are [needed_ops] as a multiset of operation names).  Hence on every
+    case where the implementation agrees with the model ([Denote.agree]), the property holds of the
+    implementation's output. *)
+Theorem C03_model_ok :
+  forall src outs W out log,
+    wfsrc src -> NoDup (map fst W) -> (forall k, In k (map fst W) -> ~ In k inames) ->
+    outputs_wf src outs ->
+    generate src outs W = Ok (out, log) ->
+    ok {| k_src := src; k_outputs := outs; k_with := W; k_impl := ImplOk out (op_log src log) |} = true.
+Proof. exact model_ok. Qed.
+Print Assumptions C03_model_ok.
+
+(** Non-vacuity: the theorem instantiated on [ex_src] with outputs ["d"] (hypotheses through the
+    decidable forms [wfsrc_b], [outputs_wf_b]); the run it speaks about is [C03_example]. *)
+Example C03_model_ok_example :
+  wfsrc_b ex_src = true /\ outputs_wf_b ex_src ["d"%string] = true
+  /\ exists out log,
+       generate ex_src ["d"%string] [] = Ok (out, log) /\ List.length log = 6%nat
+       /\ ok {| k_src := ex_src; k_outputs := ["d"%string]; k_with := []; k_impl := ImplOk out (op_log ex_src log) |} = true.
+Proof.
+  assert (Hwfb : wfsrc_b ex_src = true) by (vm_compute; reflexivity).
+  assert (Hob : outputs_wf_b ex_src ["d"%string] = true) by (vm_compute; reflexivity).
+  split; [exact Hwfb|]. split; [exact Hob|].
+  pose proof (wfsrc_b_sound _ Hwfb) as Hwf.
+  eexists. eexists. split; [exact C03_example|]. split; [reflexivity|].
+  apply (C03_model_ok ex_src ["d"%string] [] _ _ Hwf).
+  - constructor.
+  - intros k [].
+  - exact (outputs_wf_b_sound _ _ (wf_nodup _ Hwf) Hob).
+  - exact C03_example.
 Qed.
